@@ -104,12 +104,23 @@ ImplTK(d, r, q) == IF RawPath(q)
                    THEN [m \in Meas |-> IF NameOK(q.name, m) /\ (\E s \in LiveIn(d, q.shards) : MOf(s) = m)
                                         THEN {x[2] : x \in {y \in RawKV(r, q.shards) : y[1] = m /\ KeyOK(q.key, y[2])}} ELSE {}]
                    ELSE TKResult(d, q)
+\* representative queries for the exhaustive check of the implementation layer (every authorizer and shard selection)
+MCQueries == {q \in TVQueries \cup TKQueries : /\ q.name = None
+                                                /\ q.key.c \in {"none", "keyIn"}
+                                                /\ q.filter \in {None, [c |-> "tagEq", x |-> "k1", y |-> "a"], [c |-> "tagNeq", x |-> "k2", y |-> "b"]}}
 \* on the per-series path the listing is exact; on the raw path it may only list more (names of deleted series)
-ImplExact == \A q \in TVQueries \cup TKQueries :
-               IF q.api = "tv" THEN (~RawPath(q) => ImplTV(data, rawkv, q) = TVResult(data, q)) /\ \A m \in Meas : TVResult(data, q)[m] \subseteq ImplTV(data, rawkv, q)[m]
-               ELSE (~RawPath(q) => ImplTK(data, rawkv, q) = TKResult(data, q)) /\ \A m \in Meas : TKResult(data, q)[m] \subseteq ImplTK(data, rawkv, q)[m]
+ImplExact == \A q \in MCQueries :
+               IF q.api = "tv" THEN /\ ~RawPath(q) => ImplTV(data, rawkv, q) = TVResult(data, q)
+                                    /\ \A m \in Meas : TVResult(data, q)[m] \subseteq ImplTV(data, rawkv, q)[m]
+               ELSE /\ ~RawPath(q) => ImplTK(data, rawkv, q) = TKResult(data, q)
+                    /\ \A m \in Meas : TKResult(data, q)[m] \subseteq ImplTK(data, rawkv, q)[m]
+\* a listing never shows a name none of whose series the authorizer lets the caller see
+NoLeak == \A q \in MCQueries :
+            LET visM == {MOf(s) : s \in {x \in LiveIn(data, q.shards) : Allowed(q.auth, x)}}
+            IN IF q.api = "tv" THEN \A m \in Meas : TVResult(data, q)[m] # {} => m \in visM
+               ELSE \A m \in Meas : TKResult(data, q)[m] # {} => m \in visM
 \* lead F12: would hold if the raw iterators forgot the names of deleted series
-NoStaleNames == \A q \in TVQueries : ImplTV(data, rawkv, q) = TVResult(data, q)
+NoStaleNames == \A q \in MCQueries : q.api = "tv" => ImplTV(data, rawkv, q) = TVResult(data, q)
 
 \* ---- history
 Pick(j) == QSeq[((Seed * 7919 + nops * 104729 + j * 1299709 + Cardinality(data[1]) * 31 + Cardinality(data[2]) * 17) % NQ) + 1]
